@@ -16,6 +16,7 @@ from props import c13_fix as F
 
 SRC = os.path.join(common.REPO, "src", "pydap") + os.sep
 TIMEOUT = 60
+INF = 10 ** 9
 
 
 class Baton:
@@ -152,7 +153,8 @@ def check_schedule(ctx, spec, urls, plan, solo, where, gran="call"):
         if got != exp:
             ctx.oracle_fail("response depends on the thread schedule (%s granularity)" % gran, dict(case, thread=t),
                             F.show(got), F.show(exp),
-                            size=len(repr(spec)) + 60 * len(urls) + 10 * len(plan))
+                            size=200000 + len(repr(spec)) + 60 * len(urls) + 10 * len(plan)
+                            + min(sum(k for _, k in plan if k < INF), 50000) // 100)
             bad = True
             break
     if not bad and F.snapshot(ds) != snap:
@@ -270,7 +272,6 @@ def chunks(xs, n):
     return [xs[i:i + n] for i in range(0, len(xs), n)]
 
 
-INF = 10 ** 9
 
 
 def strided(xs, budget, offset=0):
